@@ -15,7 +15,17 @@ namespace Orbiter
 /-- The string whose UTF-8 bytes are the (ASCII) bytes `bs`. -/
 def asciiString (bs : Bytes) : String := String.ofList (bs.map fun b => Char.ofNat b.toNat)
 
-def encB64 (b : Bytes) : Json := .str (asciiString (b64Encode b)) true
+/-- Does `appendString` (HTML escaping on) write the character as it is? -/
+def rawChar (c : Char) : Bool :=
+  let n := c.toNat
+  if n < 0x80 then !(c == '"' || c == '\\' || n < 0x20 || c == '<' || c == '>' || c == '&')
+  else n != 0x2028 && n != 0x2029
+
+/-- A string value; the flag says whether the text between the quotes is the value itself (no escapes), which is
+what the syntax layer reports for it when it reads the rendered text back. -/
+def encStr (s : String) : Json := .str s (s.toList.all rawChar)
+
+def encB64 (b : Bytes) : Json := encStr (asciiString (b64Encode b))
 
 /-- A `bytes` field of a message held in an `Any`. -/
 def encBytesAny (b : Bytes) : Json := if b.isEmpty then .null else encB64 b
@@ -25,15 +35,13 @@ def encBytesTop (nilEmpty : Bool) (b : Bytes) : Json := if b.isEmpty && nilEmpty
 
 def encUint (n : Nat) : Json := .num (natToDec n)
 
-def encStr (s : String) : Json := .str s true
-
 /-- customtype `math.Int`: `"<decimal>"`. -/
-def encMathInt (i : Int) : Json := .str (intToDec i) true
+def encMathInt (i : Int) : Json := encStr (intToDec i)
 
 /-- Enum: the name when the number has one, the bare number otherwise. -/
 def encEnum (names : List (Int × String)) (n : Int) : Json :=
   match names.find? (·.1 == n) with
-  | some (_, s) => .str s true
+  | some (_, s) => encStr s
   | none => .num (intToDec n)
 
 def encFeeInfo (f : FeeInfo) : Json :=
@@ -146,6 +154,27 @@ def newFeeAction (hrp : String) (infos : List FeeInfo) : Res Action :=
 def newPayload (f : Forwarding) (acts : List Action) : Res Payload :=
   let p : Payload := { forwarding := some f, preActions := acts }
   p.validate >>= fun _ => pure p
+
+/-! ### text -/
+
+/-- Printable ASCII. -/
+def asciiPrintable (c : Char) : Bool := decide (0x20 ≤ c.toNat) && decide (c.toNat < 0x7F)
+
+def strOk (v : String) : Bool := v.toList.all asciiPrintable
+
+/-- The free-text fields of the attributes are printable ASCII (what every address, denomination, amount and hook
+metadata accepted by validation is — `Lemmas/JsonText.lean`). -/
+def FeeInfo.textOk (f : FeeInfo) : Bool := strOk f.recipient && (match f.feeType with | .amount s => strOk s | _ => true)
+
+def Attrs.textOk : Attrs → Bool
+  | .cctp .. => true
+  | .hyp _ _ _ _ hmeta _ feeDenom _ => strOk hmeta && strOk feeDenom
+  | .internal recipient => strOk recipient
+  | .fee infos => infos.all FeeInfo.textOk
+
+def Payload.textOk (p : Payload) : Bool :=
+  p.preActions.all (fun a => match a.attrs with | some at_ => at_.textOk | none => true) &&
+  (match p.forwarding with | some f => (match f.attrs with | some at_ => at_.textOk | none => true) | none => true)
 
 /-! ### values the Go types can hold -/
 
